@@ -175,6 +175,8 @@ class Printer(PrinterBase):
             s = f"std::numeric_limits<{typ}>::infinity()"
         elif s == "-inf":
             s = f"(-std::numeric_limits<{typ}>::infinity())"
+        elif s == "nan":
+            s = f"std::numeric_limits<{typ}>::quiet_NaN()"
         return s
 
     def make_argument(self, arg):
